@@ -54,6 +54,13 @@ ClausesC01(r) ==
               Cl("masked-slim", r.mslim = MaskedSlim(u, r.h, r.w)),
               Cl("partition", /\ ToSet(r.mslim) \cup ToSet(r.uslim) = 0 .. r.h * r.w - 1
                               /\ ToSet(r.mslim) \cap ToSet(r.uslim) = {}) >>
+      [] r.api = "indexes_big" ->
+           \* a very long frame with a handful of unmasked pixels: the k-th unmasked pixel in row-major order and its linear index
+           \* (evaluated on the sorted list of unmasked linear indices, not on the frame)
+           LET us == SetToSortSeq({ r.u[k] : k \in DOMAIN r.u }, <) IN
+           << Cl("native-for-slim", IsPairSeq(r.nfs) /\ Len(r.nfs) = Len(us) /\
+                                    \A k \in DOMAIN us : r.nfs[k] = << us[k] \div r.w, us[k] % r.w >>),
+              Cl("unmasked-slim", r.uslim = us) >>
       [] OTHER -> << Cl("unknown-api", FALSE) >>
 
 WantC01(r) ==
